@@ -115,8 +115,8 @@ static void build_ops()
    addKinds("append_str_part_defcount", F_APPEND_PART_D, OBJ, { R_SPOS }, OF_MUT);
    add("append_cstr_count", "", F_APPEND_CSTR_CNT, SK_CSTR, 0, { R_SCNT }, OF_SRC | OF_MUT);
    add("append_it_it", "", F_APPEND_IT_IT, SK_NONE, 0, { R_SIT, R_SIT }, OF_SRC | OF_MUT);
-   static const char* const FORMATS[] = { "s", "d_s", "width_d", "s_s" };
-   for (int i = 0; i < 4; ++i) add("sprintf", FORMATS[i], F_SPRINTF, SK_NONE, i, { R_ANY, R_ANY }, OF_SRC | OF_MUT);
+   static const char* const FORMATS[] = { "s", "d_s", "width_d", "s_s", "fail_lc", "fail_ls" };
+   for (int i = 0; i < 6; ++i) add("sprintf", FORMATS[i], F_SPRINTF, SK_NONE, i, { R_ANY, R_ANY }, OF_SRC | OF_MUT);
    addKinds("plus_assign_str", F_PLUSEQ, ALL, {}, OF_MUT);
    add("plus_assign_ch", "", F_PLUSEQ_CH, SK_NONE, 0, {}, OF_CH | OF_MUT);
 
